@@ -317,6 +317,19 @@ pub fn faststr_big(cx: &mut Ctx, kind: u64, n: usize, seed: u64) {
                 if fa.starts_with(fb.prefix(k + 1)) || !fa.starts_with(fb.prefix(k)) { bad.push(format!("starts_with around {} (len {})", k, n)); }
                 if fa.ends_with(fb.substring_from(k)) || !fa.ends_with(fb.substring_from(k + 1)) { bad.push(format!("ends_with around {} (len {})", k, n)); }
             }
+            // two differences in opposite directions: the first one decides
+            for j in [1usize, 7, 8, 31] {
+                if k + j >= n { continue; }
+                b[k] = a[k].wrapping_add(1);
+                b[k + j] = a[k + j].wrapping_sub(1);
+                let fb = FastStr::new(&b);
+                let want = a.cmp(&b);
+                evals += 1;
+                if fa.cmp(&fb) != want || fa.compare(fb) != want || fb.partial_cmp(&fa) != Some(want.reverse()) || fa == fb {
+                    bad.push(format!("ordering wrong: length {}, bytes {} and {} changed in opposite directions (got {:?}, unsigned byte order says {:?})", n, k, k + j, fa.cmp(&fb), want));
+                }
+                b[k + j] = a[k + j];
+            }
             b[k] = a[k];
             // cut points
             if fa.prefix(k).as_bytes() != &a[..k] || fa.suffix(n - k).as_bytes() != &a[k..] || fa.substring_from(k).as_bytes() != &a[k..] || fa.substring(k, n).as_bytes() != &a[k..] || fa.get_byte(k) != Some(a[k]) {
@@ -969,6 +982,8 @@ fn observe_sortable(v: &SortableStrVec, items: &[String], mode: usize, what: &st
     let mut g2 = got.clone();
     g2.sort();
     if g2 != sorted { bad.push(format!("{}: the sorted enumeration {} skips or repeats strings of {}", what, clip_v(&got), clip_v(&sorted))); return; }
+    // whatever the order: an Ok(i) of binary_search points at the needle in the sorted enumeration
+    for p in items.iter().take(6) { if let Ok(i) = v.binary_search(p) { if got.get(i) != Some(p) { bad.push(format!("{}: binary_search({}) = Ok({}) but get_sorted({}) is {:?}", what, clip_s(p), i, i, got.get(i).map(|s| clip_s(s)))); } } }
     match mode {
         1 => {
             if got != sorted { bad.push(format!("{}: sorted enumeration {}, want {}", what, clip_v(&got), clip_v(&sorted))); return; }
